@@ -182,4 +182,16 @@ theorem nullDecode_kernel (notSimple : Bool) (c : Bytes) :
     | nil => simp [bytesInts, pure, Except.pure]
     | cons b rest => simp [bytesInts, throw, throwThe, MonadExceptOf.throw]
 
+/-! ### BER BOOLEAN: `IntegerPayloadDecoder.valueDecoder` then `BooleanPayloadDecoder._createComponent` -/
+
+/-- **the BER BOOLEAN decoder as it is in the source**: the contents octets read as a two's complement integer (the
+    translated INTEGER decoder), then `value and 1 or 0` (the translated `_createComponent`): 1 exactly when that integer is
+    not zero - the model's lenient `intFromBytes c != 0`, for every contents string (empty, one octet, many) -/
+theorem berBoolDec_kernel (c : Bytes) :
+    (GenK.intDecode (bytesInts c) >>= GenK.berBoolDec) = .ok (if intFromBytes c != 0 then 1 else 0) := by
+  rw [intDecode_kernel]
+  show GenK.berBoolDec (intFromBytes c) = _
+  unfold GenK.berBoolDec Py.truthy
+  by_cases h : intFromBytes c = 0 <;> simp [h, pure, Except.pure]
+
 end Asn1.Kernels
